@@ -8,6 +8,26 @@ CLAIMED = {
    note="Trusted: Lean kernel; axioms propext/Classical.choice/Quot.sound only (audited by #print axioms each run); hex and bitvec crates as specified; the differential harness and generators. Modelled, not verified: the Rust decoder itself (tied by the differential).",
    technique="Lean 4 proof (all inputs) + differential correspondence model vs real codec",
    design="§7 C16"),
+ "C09": dict(
+   text="Lean 4 theorems over ALL finite, well-formed choice trees (ShuttleProofs/C09.lean: dfs_exhaustive — every path exactly once, in left-to-right order, then stop, with fuel shown not to be a loophole; dfs_no_duplicates; dfs_iteration_bound; dfs_step_bound; dfs_never_fails) about a line-by-line transcription of dfs.rs. Tie, every run: prediction mode (the model DFS scheduler driving the model kernel must reproduce every decision, draw, result and recorded schedule of the real check_dfs run) and set/order comparison of the real run's schedules with an independent explicit-stack enumerator of the model kernel's choice tree; oracles on the implementation's own logs for the iteration bound, the ContinueAfter bound and the fixed data stream.",
+   note="Trusted: Lean kernel; axioms ⊆ {propext, Classical.choice, Quot.sound}; the kernel contract (non-empty, distinct offers: C08) links programs to trees; harness/generator unverified; trees above 3000 leaves are cut and excluded from set mode.",
+   technique="Lean 4 proof over all choice trees + prediction-mode and set-mode differential against the real DfsScheduler",
+   design="§7 C09"),
+ "C08": dict(
+   text="Lean 4 theorems for EVERY Program over the kernel API, every Scheduler, every decision of every execution (ShuttleProofs/C08.lean: offered_nonempty, offered_strictly_ascending, offered_unfinished, offered_superset_runnable, offered_subset_runnable_or_spurious, current_is_last_chosen, yielding flag = has_yielded set only by request_yield, chosen_runs_next, none_stops_without_failure, no_scheduling_error, record_exact) about a transcription of ExecutionState::schedule / run_to_completion (ShuttleModel/Kernel.lean). Tie: step-exact trace-mode differential on 12 program profiles × 4 schedulers; oracle: a pass-through recording Scheduler asserts the contract on every real call and the tasks' own log cross-checks that only the chosen task runs.",
+   note="Trusted: Lean kernel + standard axioms; coroutine switching (corosensei), unwinding and RefCell discipline are modelled not verified; wrapper transparency beyond the always-present MetricsScheduler is covered by the differential only.",
+   technique="Lean 4 proof over all programs/schedulers + step-exact differential + contract-asserting recorder",
+   design="§7 C08"),
+ "C03": dict(
+   text="Lean 4 theorems for every Program/Scheduler (ShuttleProofs/C03.lean: deadlock_iff as a full iff at the loop head, deadlock_verdict_sound/complete for executions, deadlockList_exact — exactly the unfinished tasks with detached/sleeping flags —, ok_iff, detached_leftovers_ok, no_early_end, spurious_not_progress, terminates_under_bound). Tie: trace-mode differential including the outcome line with the task list on deadlock-rich streams (lock cycles, lost notifications, closed channels, parked threads, barriers short of arrivals). Oracle on implementation logs: reported tasks = tasks that never finished; normal end ⇒ every task finished.",
+   note="Trusted: as C08. 'blocked exactly when the operation is disabled' per primitive is part of C04–C06/C18, not of this check. Detached async tasks: theorem only (async IR not yet in the differential).",
+   technique="Lean 4 proof over all programs + step-exact differential + log oracle",
+   design="§7 C03"),
+ "C13": dict(
+   text="Lean 4 theorems for every Program/Scheduler (ShuttleProofs/C13.lean: no_decision_beyond_bound, fail_after/continue_after outcomes, bound_outcomes, bound_hit_ends, below_bound_unaffected at full strength, terminates_under_bound; the literal 'never more than n steps, draws included' is FALSE for the code — steps_overshoot_witness proves the negation on a concrete program and steps_total_bound_partial states exactly what holds; recorded as known finding F7). Tie: trace mode over a grid of bounds L-2..L+2 around each program's own step count, FailAfter and ContinueAfter; oracle counts steps from the log, compares below-bound runs with unbounded ones, and checks Runner::run's return value against the invocation count and the scheduler budget.",
+   note="Trusted: as C08. Time limit (checked only between iterations) is read from the source, not exercised. F17 (debug-build abort when abandoning an execution holding a lock) repaired in /repo.",
+   technique="Lean 4 proof over all programs + bound-grid differential + step-counting oracle",
+   design="§7 C13"),
 }
 PENDING_REASON = "not claimed yet: machinery for this property is still being built in this session (see DESIGN.md §7/§11)"
 ALL = ["C%02d" % i for i in range(1, 21)]
